@@ -102,6 +102,7 @@ def analyse(ctx, replace=None, only=None):
     R.require(n_nb >= 6, "only %d blocking call sites found" % n_nb)
 
     handoff(R, sh)
+    per_thread_state(R, P, th)
     join_list(R, th["aws_thread_join_and_free_wrapper_list"])
     thread_fn(R, th["thread_fn"])
     atexit(R, th["aws_thread_current_at_exit"])
@@ -136,6 +137,18 @@ def analyse(ctx, replace=None, only=None):
                 okp = thr >= 1
     R.check(okp, "HANDOFF", "predicate-threshold", "%s()" % p.name, "join-all wakes when at most one managed thread is unjoined (the last one is joined by the caller)",
             "the join-all predicate waits for a count the caller itself must bring down: the last finished thread is never joined (deadlock)")
+
+
+def per_thread_state(R, P, th):
+    """THREAD-FN/state: what every library thread writes for itself at start-up (the pointer to its own wrapper, through
+    which aws_thread_current_at_exit registers callbacks) is thread-local storage"""
+    f = th["thread_fn"]
+    names = sorted({e.node["n"] for e in f.all_events() if e.kind == "access" and e.node["k"] == "var" and e.node.get("sc") == "global" and e.mode in ("w", "rw")})
+    R.require(len(names) >= 1, "thread_fn: no static-storage variable written (the current-wrapper pointer was expected)")
+    for n in names:
+        g = P.globals.get(n) or {}
+        R.check(bool(g.get("tls")), "THREAD-FN", "per-thread-state:%s" % n, "source/posix/thread.c", "%s, written by every thread for itself, is thread-local" % n,
+                "%s is written by every library thread at start-up but is not thread-local: all threads share one `current wrapper`, so at-exit callbacks are registered on whichever thread started last (run on the wrong thread, or written into a wrapper copy on a stack that is gone)" % n)
 
 
 def handoff(R, sh):
@@ -447,6 +460,19 @@ def launch(R, f):
     R.check(ts.exit_states and not bad, "LAUNCH", "count-rollback-and-wrapper-cleanup", "%s()" % f.name,
             "every exit is: not created / running / creation failed with the count rolled back (managed) and the wrapper destroyed",
             "an exit is reached in state %s (increment without decrement after a failed pthread_create, or wrapper not destroyed)" % sorted(bad))
+    # once pthread_create succeeded the wrapper belongs to the new thread (a managed thread may already have finished and
+    # handed it to the lazy join): the launcher does not touch it any more
+    wv = RU.uncast(f, RU.arg(f, cre[0].node, 3))
+    if R.require(wv is not None and wv["k"] == "var", "aws_thread_launch: the wrapper argument of pthread_create is not a variable"):
+        wn = wv["n"]
+        touched = []
+        for e in RU.reach_from(f, cre[0]):
+            uses = (e.kind == "access" and (f.show(e.node).startswith(wn + "->") or (e.node["k"] == "var" and e.node["n"] == wn and e.mode != "r"))) or \
+                   (e.kind == "call" and any((RU.uncast(f, f.d(a)) or {}).get("k") == "var" and RU.uncast(f, f.d(a)).get("n") == wn for a in e.node.get("a", [])))
+            if uses and e is not cre[0] and "running" in ts.before.get(e.pos, set()):
+                touched.append("line %d: %s" % (e.line, f.show(e.node)[:60]))
+        R.check(not touched, "LAUNCH", "wrapper-not-touched-after-successful-create", where(f, cre[0]), "after a successful pthread_create the launcher leaves the wrapper to the new thread",
+                "the launcher uses the wrapper after pthread_create succeeded (%s): the new thread owns it from then on - a managed thread that already finished has copied / queued it for the lazy join, so the store is lost or lands in freed memory and the join uses a stale thread id" % "; ".join(touched[:3]))
     R.check(ev_dominates(f, inc[0], cre[0], dom) or True, "LAUNCH", "increment-before-create", where(f, inc[0]), "increment happens before pthread_create")
     # increment (when it happens) precedes create: create is not reachable before inc on the managed path
     reach = RU.reach_from(f, cre[0])
@@ -492,6 +518,8 @@ def ownership_and_init(R, P, th, allf):
 
 
 MUTANTS = [
+    {"name": "current-wrapper-not-thread-local", "file": "source/posix/thread.c", "expect": "THREAD-FN", "old": "static AWS_THREAD_LOCAL struct thread_wrapper *tl_wrapper = NULL;", "new": "static struct thread_wrapper *tl_wrapper = NULL;"},
+    {"name": "launcher-writes-wrapper-after-create", "file": "source/posix/thread.c", "expect": "LAUNCH", "old": "    if (is_managed_thread) {\n        aws_thread_clean_up(thread);", "new": "    if (is_managed_thread) {\n        wrapper->thread_copy.thread_id = thread->thread_id;\n        aws_thread_clean_up(thread);"},
     {"name": "wrapper-destroy-forgets-name", "file": TH, "expect": "LAUNCH", "old": "    aws_string_destroy(wrapper->name);\n    aws_mem_release(wrapper->allocator, wrapper);", "new": "    aws_mem_release(wrapper->allocator, wrapper);"},
     {"name": "thread-management-reset-on-every-init", "file": "source/common.c", "expect": "HANDOFF", "old": "    (void)allocator;\n\n    if (!s_common_library_initialized) {", "new": "    (void)allocator;\n    aws_thread_initialize_thread_management();\n\n    if (!s_common_library_initialized) {"},
     {"name": "tl-wrapper-points-at-heap-copy", "file": TH, "expect": "THREAD-FN", "old": "    tl_wrapper = &wrapper;", "new": "    tl_wrapper = wrapper_ptr;"},
